@@ -6,6 +6,8 @@
     (namespec <str>)                     -> (spec T) | (spec F <str>)              `Invalid`, `dropTopSeps` of the C13 statements
     (cojoin (<str> ...))                 -> (ok <str>)                     " and ".join
     (nameparse <str>)                    -> (ok (np ..)) | (invalid <reason>)   parse_single_name_into_parts
+    (wordcase (<str> ...))               -> (cases ((<str> <int> T|F) ...))   `wordCase` of the C13 statement `case_spec` on each word, and `wordCase = 0`
+    (namecases <str>)                    -> (cases ((<str> <int> T|F) ...)) | (invalid)   the same on every word of the parsed name (first von last jr)
     (mergelast (np ..)) (mergefirst (np ..)) -> (ok <str>)
     (nameroundtrip <str>)                -> the function-pair round trip of C14 (see `hRound`)
     (namestack <block> ((op ...) ...))   -> ((ok <block>) ... [(raise Err)])   one answer per op group
@@ -13,6 +15,7 @@
 import BibVerif.Wire.Sx
 import BibVerif.Wire.Split
 import BibVerif.Names.Merge
+import BibVerif.Names.Case
 import BibVerif.Lemmas.NamesSpec
 namespace Bib.Wire
 open Bib Sx Bib.Names Bib.NameP
@@ -58,6 +61,31 @@ def hCojoin : Handler := fun _ args =>
 def hNameparse : Handler := fun P args =>
   match args with
   | [.str s] => encParse (parse P s)
+  | _ => badArgs
+
+/-- `wordCase` of the C13 statement `case_spec` on each word (1 upper, 0 lower, -1 caseless) and
+the reading "lower-case word" = `wordCase P w = 0` of `rule_form1_case` / `rule_form23_case` -/
+def encWordCases (P : PyChars) (ws : List Str) : Sx :=
+  tag "cases" [.list (ws.map fun w => .list [.str w, .int (wordCase P w), bool (decide (wordCase P w = 0))])]
+
+/-- `(wordcase (w ...))`: the per-word function on arbitrary strings, for cross-checking against the
+Python reference `word_case` -/
+def hWordCase : Handler := fun P args =>
+  match args with
+  | [l] => match l.asStrs with
+    | some ws => encWordCases P ws
+    | none => badArgs
+  | _ => badArgs
+
+/-- `(namecases s)`: the per-word function on every word of the parsed name `s`, in the order
+first, von, last, jr - compared with `word_case` of the words the REAL parser returns and with the
+real parser's own treatment of each word (von or not between an upper-case and a final word) -/
+def hNameCases : Handler := fun P args =>
+  match args with
+  | [.str s] =>
+    match parse P s with
+    | .ok p => encWordCases P (p.first ++ p.von ++ p.last ++ p.jr)
+    | .error _ => tag "invalid" []
   | _ => badArgs
 
 def hMergeLast : Handler := fun _ args =>
@@ -124,7 +152,7 @@ def hNamestack : Handler := fun P args =>
   | _ => badArgs
 
 def namesHandlers : List (String × Handler) :=
-  [("coauth", hCoauth), ("coauthref", hCoauthRef), ("cojoin", hCojoin), ("namespec", hNameSpec), ("nameparse", hNameparse), ("mergelast", hMergeLast),
+  [("coauth", hCoauth), ("coauthref", hCoauthRef), ("cojoin", hCojoin), ("namespec", hNameSpec), ("nameparse", hNameparse), ("wordcase", hWordCase), ("namecases", hNameCases), ("mergelast", hMergeLast),
    ("mergefirst", hMergeFirst), ("nameroundtrip", hRound), ("namestack", hNamestack)]
 
 end Bib.Wire
